@@ -934,7 +934,7 @@ func ruleP11DetermineFirst(p *Prog, r *Report) {
 	}
 	// the Set call on the indentation property inside the loop over b.Lines()
 	var set ssa.CallInstruction
-	eachInstr(f, func(in ssa.Instruction) {
+	eachVInstr(f, func(in ssa.Instruction) {
 		c, ok := in.(ssa.CallInstruction)
 		if !ok || staticCallee(c) == nil || fnBase(staticCallee(c)) != "Set" {
 			return
@@ -986,7 +986,7 @@ func ruleP11DetermineFirst(p *Prog, r *Report) {
 	// line ending from the first line of the record
 	okLE, okLEOwn := false, false
 	var leAt ssa.CallInstruction
-	eachInstr(f, func(in ssa.Instruction) {
+	eachVInstr(f, func(in ssa.Instruction) {
 		c, ok := in.(ssa.CallInstruction)
 		if !ok || staticCallee(c) == nil || fnBase(staticCallee(c)) != "Set" {
 			return
